@@ -148,8 +148,47 @@ fn case(tier: Tier) -> BoxedStrategy<Case> {
     (
         world::genesis_spec(b.bridge_genesis_pct),
         proptest::collection::vec(plan, 1..=max_heights),
+        proptest::option::weighted(0.25, (1_u8..8, 1_u8..8, 0_u8..3)),
     )
-        .prop_map(|(mut genesis, heights)| {
+        .prop_map(|(mut genesis, mut heights, script)| {
+            if let Some((b_off, c_off, rollup)) = script {
+                // Authority flip-flop: the sudo account parks two transactions behind a nonce gap
+                // (a rollup submission and a sudo change), hands sudo to someone else in the same
+                // height, and gets it back in the next height, in which the parked transactions
+                // have become ready.
+                let a = genesis.sudo;
+                let other = (a + b_off) % world::N_KEYS as u8;
+                let third = (a + c_off) % world::N_KEYS as u8;
+                let tx = |nonce: NonceMode, action: AAction| ATx {
+                    signer: Who::Key(a),
+                    from: a,
+                    nonce,
+                    actions: vec![action],
+                };
+                let first = HeightPlan {
+                    txs: vec![
+                        tx(NonceMode::Gap(1), AAction::Rollup { rollup, len: 8, fee: 0 }),
+                        tx(NonceMode::Gap(2), AAction::SudoChange { new: third }),
+                        tx(NonceMode::Correct, AAction::SudoChange { new: other }),
+                    ],
+                    votes: vec![],
+                    max_bytes: 0,
+                    mutation_seed: 7,
+                };
+                let second = HeightPlan {
+                    txs: vec![ATx {
+                        signer: Who::Key(other),
+                        from: other,
+                        nonce: NonceMode::Correct,
+                        actions: vec![AAction::SudoChange { new: a }],
+                    }],
+                    votes: vec![],
+                    max_bytes: 0,
+                    mutation_seed: 11,
+                };
+                heights.insert(0, second);
+                heights.insert(0, first);
+            }
             // cheap rollup data so that large payloads are affordable
             if let Some(Some((base, mult))) = genesis.fees.get_mut(1) {
                 base.0 %= 100;
@@ -780,7 +819,24 @@ async fn run_case(case: &Case, mode: Mode, ctx: &mut Ctx) -> CaseResult {
         if mode == Mode::C06 {
             for (who, verdict) in [("the proposer itself", &own), ("another validator", &other)] {
                 if let Err(error) = verdict {
-                    let signature = "honest-proposal-rejected";
+                    // One shape is a recorded finding: ProcessProposal constructs every
+                    // transaction against the state at the start of the block, so a transaction
+                    // whose construction-time authority check only passes after an earlier
+                    // transaction of the same block (which PrepareProposal executed first) makes
+                    // other validators reject the proposer's block.
+                    let signature = if error.contains("failed to construct checked transaction")
+                        && error.contains("not authorized")
+                    {
+                        "honest-proposal-rejected:tx-constructed-against-block-start-state"
+                    } else {
+                        "honest-proposal-rejected"
+                    };
+                    if ctx.tolerate(signature) {
+                        ctx.label(format!("known:{signature}"));
+                        // this block cannot be decided; the history ends here
+                        ctx.set_nontrivial(nontrivial);
+                        return Ok(());
+                    }
                     vensure!(
                         false,
                         signature,
@@ -795,13 +851,24 @@ async fn run_case(case: &Case, mode: Mode, ctx: &mut Ctx) -> CaseResult {
             return Ok(());
         }
         // ---- decide, finalize, commit ---------------------------------------------------------------
-        let mut responses = Vec::new();
+        let mut outcomes = Vec::new();
         for node in [&mut proposer, &mut validator, &mut syncer] {
-            let response = node
-                .finalize_block(block_ctx.finalize_request(block.clone()))
-                .await
-                .map_err(|e| vcommon::Failure::new("finalize-failed", format!("height {height}: FinalizeBlock failed: {e}")))?;
-            responses.push(response);
+            outcomes.push(node.finalize_block(block_ctx.finalize_request(block.clone())).await);
+        }
+        if outcomes.iter().all(Result::is_err) {
+            // FinalizeBlock fails identically on every node (e.g. the extended commit prices a
+            // currency pair that a transaction of this block removes): the chain halts here on all
+            // nodes alike. That is outside this property (the proposal was well formed and every
+            // transaction executed); path-dependence of such failures is C05's subject.
+            ctx.label("noop:finalize-fails-on-every-node");
+            ctx.set_nontrivial(nontrivial);
+            return Ok(());
+        }
+        let mut responses = Vec::new();
+        for outcome in outcomes {
+            responses.push(outcome.map_err(|e| {
+                vcommon::Failure::new("finalize-failed", format!("height {height}: FinalizeBlock failed on some nodes only: {e}"))
+            })?);
         }
         if mode == Mode::C06 {
             let results = &responses[2].tx_results;
